@@ -524,6 +524,7 @@ func runC18(c *Ctx) {
 	c.R.Floor("C18.antonyms", 11)
 	c18MaxPolarity(c)
 	c18BitOps(c)
+	c18RoundDirection(c)
 	// max / min hand back one of their arguments
 	for _, name := range []string{"max", "min"} {
 		f := c.BuiltinFn(name)
@@ -550,6 +551,91 @@ func runC18(c *Ctx) {
 			}
 		})
 		c.R.Check("C18.selects-an-argument", name, c.P.Pos(f.Pos()), ok && n > 0, "`"+name+"` must return one of its arguments (an argument that bounds all the others); it can return "+why+", a value that is none of them (e.g. a zero seed for all-negative arguments)")
+	}
+}
+
+// c18RoundDirection: a rounding builtin that chooses between rounding up and rounding down by
+// comparing the fractional part with one half must go DOWN when the fraction is below one half
+// and UP when it is above (truth vector over Cmp's three results).
+func c18RoundDirection(c *Ctx) {
+	const rule = "C18.round-direction"
+	dirOf := func(f *ssa.Function) string {
+		cs := c.calleesOf(f)
+		up := cs["("+decimalPath+".Context).Ceil"]
+		down := cs["("+decimalPath+".Context).Floor"]
+		switch {
+		case up && !down:
+			return "up"
+		case down && !up:
+			return "down"
+		}
+		return ""
+	}
+	for _, name := range []string{"round", "roundBank"} {
+		f := c.BuiltinFn(name)
+		if f == nil {
+			continue
+		}
+		// a comparison of Rem(v, 1) with a constant threshold
+		var cmp *ssa.Call
+		threshold, thresholdIsHalf := "", false
+		instrs(f, func(b *ssa.BasicBlock, i int, in ssa.Instruction) {
+			call, ok := in.(*ssa.Call)
+			if !ok || calleeOf(call) == nil || !strings.HasSuffix(calleeOf(call).String(), "Big).Cmp") {
+				return
+			}
+			isHalf := false
+			for _, rt := range plainOrigins.Roots(call.Call.Args[1]) {
+				if rt.Kind == "call" && rt.Fn != nil && rt.Fn.String() == decimalPath+".New" {
+					nc := rt.V.(*ssa.Call)
+					m, ok1 := constIntArg(nc.Call.Args[0])
+					sc, ok2 := constIntArg(nc.Call.Args[1])
+					if ok1 && ok2 {
+						isHalf = true // a constant threshold for the fraction
+						// decimal.New(value, scale) is value x 10^-scale: one half is New(5, 1)
+						threshold = fmt.Sprintf("decimal.New(%d, %d)", m, sc)
+						thresholdIsHalf = (m == 5 && sc == 1) || (m == 50 && sc == 2) || (m == 500 && sc == 3)
+					}
+				}
+			}
+			fromRem := false
+			for _, rt := range decOrigins(c).Roots(call.Call.Args[0]) {
+				_ = rt
+			}
+			if rc, ok := call.Call.Args[0].(*ssa.Call); ok && calleeOf(rc) != nil && strings.HasSuffix(calleeOf(rc).String(), "Big).Rem") {
+				fromRem = true
+			}
+			if isHalf && fromRem {
+				cmp = call
+			}
+		})
+		if cmp == nil {
+			c.R.Add(rule, name, c.P.Pos(f.Pos()), OK, "") // rounds by a library rounding operation: nothing to decide here
+			continue
+		}
+		c.R.Check(rule, name+":threshold", c.P.InstrPos(cmp), thresholdIsHalf, "`"+name+"` compares the fractional part with "+threshold+", which is not one half (decimal.New(value, scale) denotes value x 10^-scale, so New(5, -1) is 50): every fraction is below the threshold and the function always rounds the same way")
+		want := map[int64]string{-1: "down", 1: "up"}
+		for _, v := range []int64{-1, 1} {
+			// decided for a non-negative argument (sign tests pinned accordingly)
+			r := c.foldWith(f, 0, pinValue(cmp, cInt(v)), pinCall("decimal.Big).Sign", cInt(1), nil), pinCall("decimal.Big).Signbit", cFalse, nil))
+			got := ""
+			for _, call := range r.ReachableCalls() {
+				if cal := calleeOf(call); cal != nil && c.inModule(cal) {
+					if d := dirOf(cal); d != "" {
+						got = d
+					}
+				}
+				if cal := calleeOf(call); cal != nil {
+					if cal.String() == "("+decimalPath+".Context).Ceil" {
+						got = "up"
+					}
+					if cal.String() == "("+decimalPath+".Context).Floor" {
+						got = "down"
+					}
+				}
+			}
+			c.R.Check(rule, fmt.Sprintf("%s:fraction-vs-half=%d", name, v), c.P.InstrPos(cmp), got == want[v], fmt.Sprintf("`%s`: when the fractional part compares %d with one half the value must be rounded %s, but it is rounded %s (a fraction below one half must not round up)", name, v, want[v], got))
+		}
 	}
 }
 
